@@ -102,7 +102,7 @@ func newWorld(zones map[int]string) *world {
 	for _, id := range ids {
 		w.addServer(id)
 	}
-	if err := w.srvs[1].VerifBecomeLeader(); err != nil {
+	if err := w.srvs[1].VerifBecomeTSOLeader(); err != nil {
 		panic(err)
 	}
 	w.afterLeaderChange()
@@ -111,7 +111,7 @@ func newWorld(zones map[int]string) *world {
 
 func (w *world) addServer(id int) {
 	zone := w.zones[id]
-	s, err := srvh.New(w.st, id, func(c *config.Config) {
+	s, err := srvh.NewTSO(w.st, id, func(c *config.Config) {
 		c.EnableLocalTSO = true
 		c.Labels = map[string]string{config.ZoneLabel: zone}
 		c.LeaderLease = 100000
@@ -335,6 +335,7 @@ func (w *world) check(r *sched.Run) (string, *explore.Violation) {
 }
 
 type scen struct {
+	fine  bool // read-lock acquisitions are scheduling points too
 	name  string
 	zones map[int]string
 	alloc map[string]int // dc -> server that leads its allocator
@@ -344,8 +345,12 @@ type scen struct {
 }
 
 func scenario(sc scen) *explore.Scenario {
+	kinds := uint32(1<<sched.KLock | 1<<sched.KEtcd | 1<<sched.KUser | 1<<sched.KWait | 1<<sched.KStart | 1<<sched.KYield)
+	if sc.fine {
+		kinds |= 1 << sched.KRLock
+	}
 	return &explore.Scenario{Name: sc.name, MaxPre: sc.pre, Tiers: sc.tiers,
-		Opts: sched.Options{Kinds: uint32(1<<sched.KLock | 1<<sched.KRLock | 1<<sched.KEtcd | 1<<sched.KUser | 1<<sched.KWait | 1<<sched.KStart | 1<<sched.KYield)},
+		Opts: sched.Options{Kinds: kinds, Delay: true},
 		Setup: func() *explore.Instance {
 			w := newWorld(sc.zones)
 			var dcs []string
@@ -371,15 +376,16 @@ func main() {
 	// two datacenters, allocator leaders on their own servers
 	basic := func(w *world) ([]string, []func()) {
 		return []string{"local1", "local2", "global"}, []func(){
-			func() { w.request(1, "dc1", 1); w.request(1, "dc1", 1) },
+			func() { w.request(1, "dc1", 1) },
 			func() { w.request(2, "dc2", 1); w.request(2, "dc2", 1) },
-			func() { w.request(1, G, 1); w.request(1, G, 1) },
+			func() { w.request(1, G, 1) },
 		}
 	}
-	l = append(l, scenario(scen{name: "2dc/local+global", zones: two, alloc: map[string]int{"dc1": 1, "dc2": 2}, pre: 2, tiers: "quick", build: basic}))
-	l = append(l, scenario(scen{name: "2dc/local+global@3", zones: two, alloc: map[string]int{"dc1": 1, "dc2": 2}, pre: 3, tiers: "thorough", build: basic}))
+	l = append(l, scenario(scen{name: "2dc/local+global", zones: two, alloc: map[string]int{"dc1": 1, "dc2": 2}, pre: 6, tiers: "quick", build: basic}))
+	l = append(l, scenario(scen{name: "2dc/local+global/fine", zones: two, alloc: map[string]int{"dc1": 1, "dc2": 2}, pre: 10, tiers: "thorough", build: basic, fine: true}))
+	l = append(l, scenario(scen{name: "2dc/local+global@3", zones: two, alloc: map[string]int{"dc1": 1, "dc2": 2}, pre: 10, tiers: "thorough", build: basic}))
 	// both allocator leaders co-located on the PD leader
-	l = append(l, scenario(scen{name: "2dc/co-located", zones: two, alloc: map[string]int{"dc1": 1, "dc2": 1}, pre: 2, tiers: "quick", build: func(w *world) ([]string, []func()) {
+	l = append(l, scenario(scen{name: "2dc/co-located", zones: two, alloc: map[string]int{"dc1": 1, "dc2": 1}, pre: 6, tiers: "quick", build: func(w *world) ([]string, []func()) {
 		return []string{"local1", "local2", "global"}, []func(){
 			func() { w.request(1, "dc1", 1) },
 			func() { w.request(1, "dc2", 1); w.request(1, "dc2", 1) },
@@ -394,8 +400,8 @@ func main() {
 			func() { w.request(2, "dc2", 1); w.request(2, "dc2", 1) },
 		}
 	}
-	l = append(l, scenario(scen{name: "2dc/two-globals", zones: two, alloc: map[string]int{"dc1": 1, "dc2": 2}, pre: 2, tiers: "quick", build: twoGlobals}))
-	l = append(l, scenario(scen{name: "2dc/two-globals@3", zones: two, alloc: map[string]int{"dc1": 1, "dc2": 2}, pre: 3, tiers: "thorough", build: twoGlobals}))
+	l = append(l, scenario(scen{name: "2dc/two-globals", zones: two, alloc: map[string]int{"dc1": 1, "dc2": 2}, pre: 4, tiers: "quick", build: twoGlobals}))
+	l = append(l, scenario(scen{name: "2dc/two-globals@3", zones: two, alloc: map[string]int{"dc1": 1, "dc2": 2}, pre: 10, tiers: "thorough", build: twoGlobals}))
 	// physical time advances between requests (updater rounds)
 	withUpdates := func(w *world) ([]string, []func()) {
 		return []string{"local2", "global", "updater"}, []func(){
@@ -404,7 +410,7 @@ func main() {
 			func() { w.update(2, 50*time.Millisecond); w.update(1, 50*time.Millisecond) },
 		}
 	}
-	l = append(l, scenario(scen{name: "2dc/updates", zones: two, alloc: map[string]int{"dc1": 1, "dc2": 2}, pre: 2, tiers: "quick", build: withUpdates}))
+	l = append(l, scenario(scen{name: "2dc/updates", zones: two, alloc: map[string]int{"dc1": 1, "dc2": 2}, pre: 4, tiers: "quick", build: withUpdates}))
 	// a datacenter whose allocator leader is elected while traffic is running (joins later)
 	joinLater := func(w *world) ([]string, []func()) {
 		return []string{"local1", "global", "join"}, []func(){
@@ -413,11 +419,13 @@ func main() {
 			func() {
 				if err := w.electAllocator(2, "dc2"); err == nil {
 					w.request(2, "dc2", 1)
+					w.request(1, G, 1)
+					w.request(2, "dc2", 1)
 				}
 			},
 		}
 	}
-	l = append(l, scenario(scen{name: "2dc/join-later", zones: two, alloc: map[string]int{"dc1": 1}, pre: 2, tiers: "quick", build: joinLater}))
+	l = append(l, scenario(scen{name: "2dc/join-later", zones: two, alloc: map[string]int{"dc1": 1}, pre: 4, tiers: "quick", build: joinLater}))
 	// allocator leader move: dc2's allocator is reset on server 2 and server 1 campaigns for it
 	move := func(w *world) ([]string, []func()) {
 		return []string{"local2", "global", "move"}, []func(){
@@ -432,9 +440,9 @@ func main() {
 			},
 		}
 	}
-	l = append(l, scenario(scen{name: "2dc/allocator-move", zones: two, alloc: map[string]int{"dc1": 1, "dc2": 2}, pre: 2, tiers: "quick", build: move}))
+	l = append(l, scenario(scen{name: "2dc/allocator-move", zones: two, alloc: map[string]int{"dc1": 1, "dc2": 2}, pre: 4, tiers: "quick", build: move}))
 	three := map[int]string{1: "dc1", 2: "dc2", 3: "dc3"}
-	l = append(l, scenario(scen{name: "3dc/local+global", zones: three, alloc: map[string]int{"dc1": 1, "dc2": 2, "dc3": 3}, pre: 1, tiers: "quick", build: func(w *world) ([]string, []func()) {
+	l = append(l, scenario(scen{name: "3dc/local+global", zones: three, alloc: map[string]int{"dc1": 1, "dc2": 2, "dc3": 3}, pre: 4, tiers: "quick", build: func(w *world) ([]string, []func()) {
 		return []string{"local2", "local3", "global"}, []func(){
 			func() { w.request(2, "dc2", 1) },
 			func() { w.request(3, "dc3", 1) },
@@ -444,7 +452,7 @@ func main() {
 	explore.Main(&explore.Config{
 		Property:  "C05",
 		Scenarios: l,
-		Rule:      "all schedules (preemption bound) of local requesters per datacenter, one or two global requesters, updater rounds, a datacenter joining and an allocator leader move, on 2-3 real Servers; the per-URL RPC goroutines of SyncMaxTS are scheduled threads and the RPC handlers run in-process",
+		Rule:      "all schedules within a delay bound (round-robin scheduler, k-th alternative costs k; 6 quick, 10 thorough) of local requesters per datacenter, one or two global requesters, updater rounds, a datacenter joining and an allocator leader move, on 2-3 real Servers; the per-URL RPC goroutines of SyncMaxTS are scheduled threads and the RPC handlers run in-process",
 		Assumptions: []string{
 			"PD-to-PD RPCs: real generated client stubs over an in-process ClientConn whose interceptor calls the target Server's real handler (no sockets)",
 			"local allocator election driven by the verif hooks VerifSetUpLocalAllocator / VerifBecomeAllocatorLeader / VerifObserveAllocatorLeader (the steps of allocatorLeaderLoop / campaignAllocatorLeader without their never-ending loops)",
